@@ -243,6 +243,9 @@ fn structural_cases(text: &str, out: &mut Vec<Case>) {
                 }
             }
         }
+        if !t.empty {
+            push("empty-cdata-after-start-tag", splice(text, t.end, 0, "<![CDATA[]]>"), Expect::Accept);
+        }
         // prefix bound to the empty namespace name
         push("prefix-undeclared-with-empty-uri", splice(text, t.name.1, 0, " xmlns:zp=\"\""), Expect::Reject);
         push("attribute-without-value", splice(text, t.name.1, 0, " novalue"), Expect::Reject);
@@ -315,6 +318,8 @@ fn structural_cases(text: &str, out: &mut Vec<Case>) {
                 push(&format!("charref-{}-in-content", k), splice(text, pos, 0, r), Expect::Accept);
             }
             push("cdata-end-in-content", splice(text, pos, 0, "]]>"), Expect::Reject);
+            push("empty-cdata-in-content", splice(text, pos, 0, "<![CDATA[]]>"), Expect::Accept);
+            push("cdata-in-content", splice(text, pos, 0, "<![CDATA[<&]] >]]>"), Expect::Accept);
             if !text[pos..].contains("-->") {
                 push("unterminated-comment", splice(text, pos, 0, "<!-- c"), Expect::Reject);
             }
@@ -432,6 +437,8 @@ fn encoded_cases(text: &str, out: &mut Vec<Case>) {
 struct Store {
     x: Xot,
     residents: Vec<(Node, String, String)>, // root, canon, serialisation
+    /// parses judged on this store (per run: decisions must not depend on worker-local totals)
+    n: u64,
 }
 
 fn canon_of(x: &Xot, root: Node) -> Result<String, Violation> {
@@ -450,7 +457,7 @@ fn new_store(residents: &[String]) -> Store {
             res.push((r, c, s));
         }
     }
-    Store { x, residents: res }
+    Store { x, residents: res, n: 0 }
 }
 
 fn check_residents(st: &Store, what: &str) -> Result<(), Violation> {
@@ -518,6 +525,7 @@ fn judge(st: &mut Store, case: &Case, entry: Entry, stats: &mut Stats) -> Result
         None => return Ok(()), // not valid UTF-8: only the byte entry point applies
     };
     stats.steps += 1;
+    st.n += 1;
     stats.inc(&format!("fault/{}", case.kind));
     let what = format!("{:?} of {} [{}]", entry, show(&case.bytes), case.kind);
     match r {
@@ -529,7 +537,7 @@ fn judge(st: &mut Store, case: &Case, entry: Entry, stats: &mut Stats) -> Result
                 return Err(v("unsound-accept", format!("{} is well-formed but was rejected: {}", what, _e)));
             }
             // the other clients' trees: after every 4th failed parse (and after the campaign)
-            if stats.steps % 4 == 0 {
+            if st.n % 4 == 0 {
                 stats.inc("probe/c03_residents_checked_after_failed_parse");
                 check_residents(st, &what)
             } else {
@@ -583,11 +591,11 @@ fn judge(st: &mut Store, case: &Case, entry: Entry, stats: &mut Stats) -> Result
                 }
                 Err(_) => return Err(v("panic", format!("{}: reparsing the serialisation {:?} panicked", what, text))),
             }
-            if stats.steps % 4 == 0 {
+            if st.n % 4 == 0 {
                 check_residents(st, &what)?;
             }
             // keep the store small: the new tree is dropped again most of the time
-            if stats.steps % 7 != 0 {
+            if st.n % 7 != 0 {
                 let _ = st.x.remove(root);
             }
             Ok(())
